@@ -72,6 +72,20 @@ def copy_ref(ref):
     return tuple(ref)
 
 
+def leaf_form(ref):
+    """the same structure with every field of complex datatype written as ('leaf', None, datatype, long name, table, length)"""
+    def field(f):
+        return ('leaf', None) + tuple(f[2:]) if (f is not None and f[0] == 'sequence' and len(f) >= 6) else f
+
+    def node(r, kind):
+        if r is None or not r[1]:
+            return r
+        if kind == 'SEG':
+            return (r[0], tuple((c[0], field(c[1]), c[2], c[3]) for c in r[1])) + tuple(r[2:])
+        return (r[0], tuple((c[0], node(c[1], c[3]), c[2], c[3]) for c in r[1])) + tuple(r[2:])
+    return node(ref, 'GRP')
+
+
 def dt_ref(v, old, new):
     """reference row content for datatype `new`, keeping long name / table / length of `old`"""
     tail = list(old[3:]) if len(old) > 3 else [None, None, -1]
@@ -305,12 +319,20 @@ def check_edit(case, acc=None):
         route = 'api'
     if kind == 'restate':
         prof = {m: copy_ref(std)}
+        if case['pick'] % 3 == 0:
+            # the other way of restating: fields of complex datatype described as leaves, their components not listed (what
+            # the profile converter writes when the profile does not spell the components out)
+            prof = {m: leaf_form(std)}
+            route = route + ':leaf-form'
         try:
-            a = build(v, m, tree, lines, route, level, None)
-            b = build(v, m, tree, lines, route, level, prof)
+            a = build(v, m, tree, lines, route.split(':')[0], level, None)
+            b = build(v, m, tree, lines, route.split(':')[0], level, prof)
             if a.to_er7() != b.to_er7():
                 out.append(('C18-restating-profile-changes-encoding:%s' % route, '%s %s\nno profile %r\nprofile    %r' % (v, m, a.to_er7()[:300], b.to_er7()[:300])))
             ra, rb = report(a), report(b)
+            if route.endswith(':leaf-form'):
+                # (a leaf row carries a length and a table, which the validator turns into warnings: only errors are compared)
+                ra, rb = (ra[0], []), (rb[0], [])
             if ra != rb:
                 out.append(('C18-restating-profile-changes-validation:%s' % route, '%s %s\nno profile %r\nprofile    %r' % (v, m, ra[0][:3], rb[0][:3])))
         except Exception as e:
